@@ -24,6 +24,12 @@ pub fn check(c: &mut Case, files: &Files, plan: &ArcPlan) {
     if files.iter().any(|(_, b)| b.is_empty()) {
         c.sit("empty_file");
     }
+    if plan.tables_first {
+        c.sit("tables_before_bodies");
+        if !broken && files.iter().any(|(_, b)| b.is_empty()) {
+            c.sit("tables_before_bodies_with_empty_file");
+        }
+    }
     if plan.shuffle_records && plan.shuffle_bodies && files.len() >= 2 {
         c.sit("record_order_differs_from_body_order");
         if !broken {
@@ -92,11 +98,11 @@ fn gen_arc_files(rng: &mut Rng, miri: bool) -> Files {
     f
 }
 
-pub const REQUIRED: &[&str] = &["padded_header", "no_padded_header", "empty_file", "record_order_differs_from_body_order", "no_count_label", "no_info_label", "record_without_name", "record_range_outside_data"];
+pub const REQUIRED: &[&str] = &["padded_header", "no_padded_header", "empty_file", "record_order_differs_from_body_order", "no_count_label", "no_info_label", "record_without_name", "record_range_outside_data", "tables_before_bodies", "tables_before_bodies_with_empty_file", "last_body_ends_data_region_aligned", "empty_file_at_end_of_data"];
 
 pub fn run(cx: &mut Ctx) {
     cx.require(REQUIRED);
-    cx.rule = "arc images are built by the reference builder on top of the reference bin-archive writer: 0..=20 files with distinct names, sizes {0,1,3,4,5, random <= 2 KiB}, with/without the 0x60 zero header, record order and body order shuffled independently, gaps between bodies, decoy labels (Data, per-record name labels as in the sample file), canonical or permuted archive layout; error variants: no Count label, no Info label, a record without a name string, a record whose range leaves the data region (size too big, offset beyond the end, offset + 0x60 overflowing 32 bits). non-trivial = >=2 files with record order != body order; distinct by (files, plan) hash".into();
+    cx.rule = "arc images are built by the reference builder on top of the reference bin-archive writer: 0..=20 files with distinct names, sizes {0,1,3,4,5, random <= 2 KiB}, with/without the 0x60 zero header, tables before or after the bodies (so the last body can end the data region, incl. an empty file at the very end), record order and body order shuffled independently, gaps between bodies, decoy labels (Data, per-record name labels as in the sample file), canonical or permuted archive layout; error variants: no Count label, no Info label, a record without a name string, a record whose range leaves the data region (size too big, offset beyond the end, offset + 0x60 overflowing 32 bits). non-trivial = >=2 files with record order != body order; distinct by (files, plan) hash".into();
     let miri = cfg!(miri);
     cx.case("directed", |c| {
         let files: Files = vec![("ArcTest1.bin".into(), vec![1, 2, 3, 4, 5]), ("ArcTest1.bin.lz".into(), vec![]), ("日本.bin".into(), vec![9; 7])];
@@ -105,6 +111,15 @@ pub fn run(cx: &mut Ctx) {
             check(c, &files, &base);
             check(c, &vec![], &base);
             check(c, &files, &ArcPlan { shuffle_bodies: true, shuffle_records: true, gaps: true, ..base.clone() });
+            // tables first: the last body is flush with the end of the data region
+            let tf = ArcPlan { tables_first: true, ..base.clone() };
+            c.sit("last_body_ends_data_region_aligned");
+            check(c, &vec![("a.bin".to_string(), vec![1u8; 8]), ("b.bin".to_string(), vec![2u8; 16])], &tf);
+            check(c, &vec![("a.bin".to_string(), vec![1u8; 5]), ("b.bin".to_string(), vec![2u8; 3])], &tf);
+            c.sit("empty_file_at_end_of_data");
+            check(c, &vec![("a.bin".to_string(), vec![1u8; 8]), ("empty.bin".to_string(), vec![])], &tf);
+            check(c, &vec![("only_empty.bin".to_string(), vec![])], &tf);
+            check(c, &files, &ArcPlan { tables_first: true, shuffle_records: true, ..base.clone() });
             check(c, &files, &ArcPlan { drop_count_label: true, ..base.clone() });
             check(c, &files, &ArcPlan { drop_info_label: true, ..base.clone() });
             for slot in 0..3 {
@@ -120,7 +135,7 @@ pub fn run(cx: &mut Ctx) {
         cx.case("random", |c| {
             let mut rng = c.rng.clone();
             let files = gen_arc_files(&mut rng, miri);
-            let mut plan = ArcPlan { padded_header: rng.bool(), shuffle_bodies: rng.bool(), shuffle_records: rng.bool(), gaps: rng.bool(), decoy_labels: rng.bool(), ..Default::default() };
+            let mut plan = ArcPlan { padded_header: rng.bool(), shuffle_bodies: rng.bool(), shuffle_records: rng.bool(), gaps: rng.bool(), decoy_labels: rng.bool(), tables_first: rng.chance(1, 3), ..Default::default() };
             if !files.is_empty() {
                 match rng.below(10) {
                     0 => plan.drop_count_label = true,
